@@ -228,12 +228,56 @@ theorem widthOr_perm (nc0 : Option Nat) {l l' : List (List Q × Q)} (h : l.Perm 
         hu r' (h.mem_iff.mpr (List.mem_cons_self ..)) r (List.mem_cons_self ..)
       simp [this]
 
+theorem uniformB_iff (l : List (List Q × Q)) : uniformB l = true ↔ UniformWidth l := by
+  unfold UniformWidth
+  cases l with
+  | nil => simp [uniformB]
+  | cons r t =>
+    simp only [uniformB, List.all_eq_true, beq_iff_eq]
+    constructor
+    · intro h a ha b hb
+      have ea : a.1.length = r.1.length := by
+        rcases List.mem_cons.mp ha with rfl | ha
+        · rfl
+        · exact h a ha
+      have eb : b.1.length = r.1.length := by
+        rcases List.mem_cons.mp hb with rfl | hb
+        · rfl
+        · exact h b hb
+      rw [ea, eb]
+    · intro h a ha
+      exact h a (List.mem_cons_of_mem _ ha) r (List.mem_cons_self ..)
+
+theorem uniformB_perm {l l' : List (List Q × Q)} (h : l.Perm l') : uniformB l = uniformB l' := by
+  have key : ∀ {m m' : List (List Q × Q)}, m.Perm m' → uniformB m = true → uniformB m' = true := by
+    intro m m' hp hu
+    rw [uniformB_iff] at hu ⊢
+    intro a ha b hb
+    exact hu a (hp.mem_iff.mpr ha) b (hp.mem_iff.mpr hb)
+  cases hu : uniformB l with
+  | true => exact (key h hu).symm
+  | false =>
+    cases hu' : uniformB l' with
+    | false => rfl
+    | true => rw [key h.symm hu'] at hu; cases hu
+
+/-- MulticlassPrecisionRecallCurve: with `num_classes=None` and cached rows of different widths both sides
+    raise; otherwise the curves do not depend on the order. -/
 theorem outPerm_multiclassPrCurve (nc0 : Option Nat) :
-    OutPerm (multiclassPrCurveC nc0).out UniformWidth := by
-  intro l l' hp hu
-  show multiclassPrCurve _ _ = multiclassPrCurve _ _
-  rw [widthOr_perm nc0 hp hu]
-  exact multiclassPrCurve_perm _ hp
+    OutPerm (multiclassPrCurveC nc0).out (fun _ => True) := by
+  intro l l' hp _
+  show (if nc0.isNone && !uniformB l then _ else multiclassPrCurve _ _)
+    = (if nc0.isNone && !uniformB l' then _ else multiclassPrCurve _ _)
+  rw [← uniformB_perm hp]
+  cases nc0 with
+  | some nc => simpa [widthOr] using multiclassPrCurve_perm nc hp
+  | none =>
+    cases hu : uniformB l with
+    | false => simp
+    | true =>
+      simp only [Option.isNone_none, Bool.not_true, Bool.and_false, Bool.false_eq_true, if_false]
+      rw [widthOr_perm none hp ((uniformB_iff l).mp hu)]
+      exact multiclassPrCurve_perm _ hp
 
 /-! ### the typed functional on a batch = the model functional on the batch's tensors -/
 
